@@ -291,6 +291,40 @@ func verifRefSlot(key string) uint16 {
 	return digest.Crc16(tag) & 0x3fff
 }
 
+// verifRefSlotBitwise: the same with an independent bit-by-bit CRC-16/XMODEM (polynomial 0x1021,
+// initial value 0, no reflection) instead of the repository's table - used on concrete keys, so that
+// the C18 verdict on them does not lean on digest.Crc16 (branch-free: usable on symbolic bytes too)
+func verifRefSlotBitwise(key string) uint16 {
+	s := -1
+	for i := 0; i < len(key); i++ {
+		if key[i] == '{' {
+			s = i
+			break
+		}
+	}
+	tag := key
+	if s >= 0 {
+		e := -1
+		for i := s + 1; i < len(key); i++ {
+			if key[i] == '}' {
+				e = i
+				break
+			}
+		}
+		if e >= 0 && e != s+1 {
+			tag = key[s+1 : e]
+		}
+	}
+	crc := uint16(0)
+	for i := 0; i < len(tag); i++ {
+		crc ^= uint16(tag[i]) << 8
+		for b := 0; b < 8; b++ {
+			crc = (crc << 1) ^ (0x1021 & -(crc >> 15))
+		}
+	}
+	return crc & 0x3fff
+}
+
 // VerifC18Builder: with a cluster target, a unit is built exactly when all keys
 // of all its commands share one reference slot, and then carries that slot.
 func VerifC18Builder() {
@@ -298,7 +332,7 @@ func VerifC18Builder() {
 	// bytes; arbitrary brace/UTF-8 arrangements inside KeyToSlot itself are decided in C11)
 	sym := func() byte {
 		b := verifU8("kb")
-		verifAssume(verifAnd(b < 0x80, verifAnd(b != '{', b != '}')))
+		verifAssume(verifAnd(b != '{', b != '}'))
 		return b
 	}
 	klen := verifParam("KLEN", 3)
@@ -337,10 +371,10 @@ func VerifC18Builder() {
 			keys = append(keys, k1, k2)
 		}
 	}
-	s0 := verifRefSlot(string(keys[0]))
+	s0 := verifRefSlotBitwise(string(keys[0]))
 	same := true
 	for _, k := range keys[1:] {
-		same = verifAnd(same, verifRefSlot(string(k)) == s0)
+		same = verifAnd(same, verifRefSlotBitwise(string(k)) == s0)
 	}
 	unit, err := buildBisyncReplayUnitWithMode(1, 0, 10, n > 1, nil, cmds, bisyncSlotMode{})
 	verifObserve("built", verifB2I(err == nil))
@@ -375,7 +409,7 @@ func VerifC18ControlKeys() {
 	verifClockNs = 1700000000000000000
 	// one path walks all cases: the real slot-tag table (16384 tags found by hashing ~10^5
 	// candidates) is built once per process/path
-	for _, bkey := range []string{"a", "user:{x}:1", "{}{b}", "k{a}{b}"} {
+	for _, bkey := range []string{"a", "user:{x}:1", "{}{b}", "k{a}{b}", "caf\xc3\xa9", "u{\xe4\xb8\xad}1", "\xff\x00\x80k"} {
 		for _, mode := range []config.ReplayMode{config.ReplayModeSync, config.ReplayModeParallel} {
 			f := verifNewFake()
 			ro := verifBisyncLink(f, "redis-gunyu-checkpoint-bisync:aa01", mode)
@@ -385,7 +419,7 @@ func VerifC18ControlKeys() {
 			if err != nil {
 				return
 			}
-			verifAssert(unit.Slot == verifRefSlot(bkey), "C18.unit-slot-differs-from-key-slot")
+			verifAssert(unit.Slot == verifRefSlotBitwise(bkey), "C18.unit-slot-differs-from-key-slot")
 			_, _, err = ro.execBisyncUnit(f, "rid1", unit, mode == config.ReplayModeSync)
 			verifAssert(err == nil, "C18.control.commit-error")
 			nkeys := 0
@@ -395,7 +429,7 @@ func VerifC18ControlKeys() {
 				}
 				k := verifArgStr(r.args[0])
 				nkeys++
-				verifAssert(verifRefSlot(k) == unit.Slot, "C18.transaction-key-in-other-slot")
+				verifAssert(verifRefSlotBitwise(k) == unit.Slot, "C18.transaction-key-in-other-slot")
 			}
 			verifObserve("nkeys", int64(nkeys))
 			verifAssert(nkeys >= 3, "C18.control.transaction-shape")
